@@ -332,6 +332,11 @@ impl Walrus {
                 };
                 let mut in_block_off: u64 = 0;
                 loop {
+                    // A header window that would run past the end of the file cannot hold
+                    // an entry; reading it is out of bounds for the mapping.
+                    if block_offset + in_block_off + PREFIX_META_SIZE as u64 > MAX_FILE_SIZE {
+                        break;
+                    }
                     match block_stub.read(in_block_off) {
                         Ok((_entry, consumed)) => {
                             used += consumed as u64;
